@@ -338,6 +338,19 @@ pub fn observe_line(line: &str) -> Option<String> {
         ("radix", 3) => obs_radix(num(t[1])? as u32, t[2]),
         ("run", 2) => obs_run(num(t[1])? as u32),
         ("invpads", 2) => obs_invpads(num(t[1])? as u32),
+        ("runscan", 2) => {
+            // (translator) the runs in 1..=upto at which the maps' fingerprint differs from the previous run's
+            let mut out = Vec::new();
+            let mut last = run_fingerprint(0);
+            for run in 1..=(num(t[1])? as u32) {
+                let f = run_fingerprint(run);
+                if f != last {
+                    out.push(run.to_string());
+                    last = f;
+                }
+            }
+            format!("boundaries {}", out.join(" "))
+        }
         ("wpos", 4) => obs_wpos(num(t[1])? as u32, t[2], num(t[3])? as u8),
         ("ppos", 5) => obs_ppos(num(t[1])? as u32, t[2], num(t[3])? as u8, num(t[4])? as u16),
         ("wcol", 2) => obs_wcol(num(t[1])? as usize),
